@@ -238,6 +238,30 @@ def inFragment2RB (ordf : List World → List World) (G : MG Name) (ev : Event) 
   goodEvB G ev &&
   (violatesEffectiveness ev || (removeTautologies ev).isEmpty || inFragment2B ordf G (removeTautologies ev))
 
+/-- `Frag3At` (Lemmas/CfMwC.lean): the condition on the counterfactual graph of an event that is still multi-world after line 3 -/
+def frag3AtB (G : MG Name) (g : MG Var) (nev : Event) : Bool :=
+  let N := (nsiSubgraph g).nodes
+  N.all (fun a => N.all fun b => decide (a.name = b.name → a = b)) &&
+  N.all (fun n => g.nodes.all fun x => x.ivs.all fun i => decide (i.name ≠ n.name)) &&
+  consistentB (cfInterventions g.nodes) &&
+  g.nodes.all (fun a => g.nodes.all fun b => !(isNotSelfIntervened a) || !(isNotSelfIntervened b) || decide (a = b) ||
+    !(decide ((a.name, b.name) ∈ G.bi) || decide ((b.name, a.name) ∈ G.bi)) || g.hasBi a b) &&
+  (match isConnected (nsiSubgraph g) with
+   | .ok true => g.nodes.all fun x => isNotSelfIntervened x ||
+       x.ivs.all fun i => decide (i.name ≠ x.name) || elem' i (cfInterventions N)
+   | .ok false =>
+       nev.all (fun q => !(starOf nev q.1.name) || N.all fun n => decide ((q.1.name, n.name) ∉ G.di)) &&
+       g.nodes.all (fun x => isNotSelfIntervened x || x.ivs.all fun i => decide (i.name ≠ x.name) || !i.star)
+   | .error _ => false)
+
+/-- fragment 3 (`InFragment3`): a well-formed event that passes lines 1–3 with a non-empty remainder whose counterfactual graph
+satisfies `Frag3At` -/
+def inFragment3B (ordf : List World → List World) (G : MG Name) (ev : Event) : Bool :=
+  goodEvB G ev && !violatesEffectiveness ev && !(removeTautologies ev).isEmpty &&
+  match makeCounterfactualGraph ordf G (removeTautologies ev) with
+  | .ok (g, some nev) => frag3AtB G g nev
+  | _ => false
+
 /-- single-world events (`OneWorld`) -/
 def oneWorldB (G : MG Name) (ev : Event) : Bool :=
   decide (ev.keys.Nodup) &&
